@@ -27,7 +27,7 @@ from pymbolic.mapper import UnsupportedExpressionError
 from pbt import envs, strategies as S, walk
 from pbt.refsem import RefSkip, describe, exc_site, ref_eval, values_close
 from pbt.runner import Result
-from pbt.spec import build, subspecs
+from pbt.spec import retype, build, subspecs
 
 PROP = "C13"
 LEVEL = "translation_validation"
@@ -47,7 +47,7 @@ ASSUMPTIONS = [
     "numpy scalar constants are only sent through compile(); Python's ast module cannot hold them",
     "values with a float part are compared to 1e-9 (n-ary sums/products are re-associated by the AST path); on the AST paths quotients are evaluated over Fractions, and cases where floats certainly arise (float constants, constant/constant quotients) AND feed a discontinuous operation (floor, %, //, comparison, conditional, subscript) are skipped and counted: the two association orders may land on different sides of the jump",
 ]
-HEALTH = {"compile:unlisted>=2": 0.05, "neg-const": 0.05}
+HEALTH = {"compile:unlisted>=2": 0.05, "neg-const": 0.05, "twin-translated-first": 0.1}
 
 AST_NODES = frozenset({
     "Sum", "Product", "Quotient", "FloorDiv", "Remainder", "Power", "LeftShift",
@@ -77,7 +77,18 @@ def env_box(names):
                   "a_11": 19, "a_2": 23, "Z1": 29, "a1": 31, "n007": 37, "n1": 41})
         e.update(zip(keys, combo))
         out.append(e)
-    return out[:24]
+    out = out[:24]
+    # one environment of large integers (beyond 2**53): an int constant silently turned
+    # into a float, or the reverse, changes the value there; the reference skips
+    # environments in which a power/shift would explode before the generated code is run
+    big = dict(out[0])
+    big.update({k: v for k, v in BIG_ENV.items() if k in names})
+    if any(k in names for k in BIG_ENV):
+        out.append(big)
+    return out
+
+
+BIG_ENV = {"x": 2**53 + 1, "y": -(2**53) - 3, "z": 2**60 + 1}
 
 
 def free_names(e):
@@ -108,6 +119,14 @@ def run_and_compare(res, what, e, thunk_for_env, env_specs, ref_tree=None):
                          f"{e!r} at {small}: generated code gives {describe(got[1])}, "
                          f"reference {describe(ref[1])}")
                 return False
+            if _exact(ref[1]) and isinstance(got[1], (float, np.floating)) \
+                    and got[1] != ref[1] and not _may_produce_floats(e):
+                # exact arithmetic all the way in the source expression: the tolerance
+                # above is for floats that take part, not for exactness lost on the way
+                res.fail(f"{what}:value-inexact",
+                         f"{e!r} at {small}: generated code gives {describe(got[1])}, "
+                         f"reference is the exact {describe(ref[1])}")
+                return False
         elif ref[0] == "err" and got[0] == "err":
             if got[1] not in {n for n, _ in ref[1]} and not (
                     got[1] in ("NameError", "KeyError") and "UnknownVariableError" in {
@@ -127,6 +146,44 @@ def run_and_compare(res, what, e, thunk_for_env, env_specs, ref_tree=None):
                      f"reference raises {sorted(n for n, _ in ref[1])}")
             return False
     return True
+
+
+def _exact(v):
+    from fractions import Fraction
+    return isinstance(v, (int, Fraction, np.integer)) and not isinstance(v, bool)
+
+
+def _may_produce_floats(e):
+    for _, n in walk.occurrences(e):
+        if isinstance(n, (float, complex, np.floating, np.complexfloating, p.Quotient,
+                          p.Call, p.CallWithKwargs)):
+            return True
+        if isinstance(n, p.Power) and not (
+                isinstance(n.exponent, (int, np.integer)) and not isinstance(n.exponent, bool)
+                and n.exponent >= 0):
+            return True
+    return False
+
+
+def _translate_twin_first(res, spec, translate):
+    """Optional first step of a case: translate a retyped twin of the expression in
+    the same process.  On a correct library this has no effect on what follows."""
+    how = spec.get("twin")
+    if not how:
+        return
+    if how not in ("i2f", "f2i", "b2i"):
+        from pbt.spec import HarnessError
+        raise HarnessError("twin must be i2f, f2i or b2i")
+    t = retype(spec["expr"], how)
+    if t == spec["expr"]:
+        return
+    res.label("twin-translated-first")
+    try:
+        translate(build(t))
+    except RecursionError:
+        raise
+    except Exception:
+        pass
 
 
 DISCONTINUOUS = (p.Remainder, p.FloorDiv, p.Comparison, p.If, p.Min, p.Max, p.LogicalNot,
@@ -252,6 +309,7 @@ def check_compile(spec):
     unlisted = sorted(names - set(listed))
     res.label(f"compile:unlisted>={min(len(unlisted), 2)}")
     res.extra_programs = 1
+    _translate_twin_first(res, spec, lambda t: pymbolic.compile(t, listed_objs))
     try:
         c = pymbolic.compile(e, listed_objs)
     except (NotImplementedError, UnsupportedExpressionError) as exc:
@@ -321,6 +379,7 @@ def check_toast(spec):
     _validate(spec["expr"])
     e = build(spec["expr"])
     _classify(res, spec["expr"], e)
+    _translate_twin_first(res, spec, to_python_ast)
     tree = _toast(res, e)
     if tree is None:
         return res
@@ -384,6 +443,7 @@ def check_tofunc(spec):
     _validate(spec["expr"])
     e = build(spec["expr"])
     _classify(res, spec["expr"], e)
+    _translate_twin_first(res, spec, lambda t: to_evaluatable_python_function(t, "f"))
     try:
         src = to_evaluatable_python_function(e, "f")
     except (NotImplementedError, UnsupportedExpressionError) as exc:
@@ -448,6 +508,19 @@ def expr_for(draw, frag):
         ex = ["Tuple", [ex, draw(S.expr("INT", 2, frag))]]
     elif c == 1:
         ex = ["Call", ["Lookup", ["Var", "math"], "floor"], [ex]]
+    elif c == 2:
+        # a negative constant (int or float) where the unary minus of its text binds
+        # looser than the operator above it: base of a power, operand of a power's base
+        neg = draw(st.sampled_from((["Const", "int", -2], ["Const", "int", -1],
+                                    ["Const", "float", -0.5], ["Const", "float", -2.0],
+                                    ["Const", "float", -1.5])))
+        ex2 = draw(st.sampled_from((["Const", "int", 2], ["Const", "int", 3],
+                                    ["Const", "int", -2], ["Var", "k"], ["Var", "x"])))
+        pw = ["Power", neg, ex2]
+        other = ["Var", draw(st.sampled_from(("x", "y")))]
+        ex = draw(st.sampled_from((pw, ["Sum", [pw, other]], ["Product", [other, pw]],
+                                   ["Power", pw, ["Const", "int", 2]],
+                                   ["Quotient", other, pw])))
     return ex
 
 
@@ -467,8 +540,19 @@ def compile_case(draw):
     if draw(st.integers(0, 2)) == 0 and len(names) >= 2:
         # make sure >=2 stay unlisted
         listed = [n for n in listed if n not in names[:2]]
-    return {"expr": ex,
-            "listed": [[draw(st.sampled_from(("name", "var"))), n] for n in listed]}
+    out = {"expr": ex,
+           "listed": [[draw(st.sampled_from(("name", "var"))), n] for n in listed]}
+    tw = draw(st.sampled_from((None, None, "i2f", "i2f", "f2i", "b2i")))
+    if tw:
+        out["twin"] = tw
+    return out
+
+
+@st.composite
+def ast_case(draw):
+    s = draw(expr_for(FRAG_AST))
+    tw = draw(st.sampled_from((None, None, None, "i2f", "f2i", "b2i")))
+    return {"expr": s, "twin": tw} if tw else {"expr": s}
 
 
 def generate(ctx):
@@ -477,12 +561,12 @@ def generate(ctx):
         ctx.extra["programs"] += 1
         return r
 
-    def ja(s):
-        ctx.judge("toast", {"expr": s})
-        ctx.judge("tofunc", {"expr": s})
+    def ja(spec):
+        ctx.judge("toast", spec)
+        ctx.judge("tofunc", spec)
         ctx.extra["programs"] += 3
     ctx.run_given(compile_case(), jc, ctx.n(3000, 90000))
-    ctx.run_given(expr_for(FRAG_AST), ja, ctx.n(2500, 70000))
+    ctx.run_given(ast_case(), ja, ctx.n(2500, 70000))
 
 
 MANIFEST = {
